@@ -39,6 +39,7 @@ type Stage struct {
 type Req struct {
 	Method  string `json:"method"`            // none | password | kbd | pk | unknown
 	Bob     bool   `json:"bob,omitempty"`     // use the other user name
+	Empty   bool   `json:"empty,omitempty"`   // use the empty user name
 	Variant string `json:"variant,omitempty"` // password/kbd: right|wrong|short ; pk: query|valid|wrong-session|wrong-user|wrong-service|other-key|sig-format|trailing|bad-algo-for-key
 	Key     string `json:"key,omitempty"`
 	Algo    string `json:"algo,omitempty"`
@@ -119,6 +120,9 @@ func genOutcome(r *rand.Rand, allowPartial bool) *Outcome {
 	case k < 6 && allowPartial:
 		return &Outcome{Kind: "partial"}
 	case k < 7:
+		if r.IntN(2) == 0 {
+			return &Outcome{Kind: "banner-nil"}
+		}
 		return &Outcome{Kind: "banner"}
 	default:
 		return &Outcome{Kind: "reject"}
@@ -179,6 +183,9 @@ func genReq(r *rand.Rand, long bool) Req {
 	}
 	if r.IntN(12) == 0 {
 		q.Bob = true
+	}
+	if r.IntN(40) == 0 {
+		q.Empty = true
 	}
 	if r.IntN(40) == 0 {
 		q.Service = "ssh-connection2"
@@ -308,8 +315,8 @@ func gen(r *rand.Rand, prop, tier string, index int) any {
 		if s.MaxAuthTries > 0 && s.MaxAuthTries < 4 {
 			s.MaxAuthTries = 6
 		}
-		s.Reqs = []Req{{Method: "password", Variant: "right"}}
-		for i, n := 0, 1+r.IntN(2); i < n; i++ {
+		s.Reqs = []Req{{Method: "password", Variant: "right", Empty: r.IntN(3) == 0}}
+		for i, n := 0, r.IntN(3); i < n; i++ {
 			q := []Req{{Method: "none"}, {Method: "password", Variant: "wrong"}, {Method: "pk", Key: "ed25519", Algo: "ssh-ed25519", Variant: "query"}, {Method: "unknown"}}[r.IntN(4)]
 			q.Bob = true
 			s.Reqs = append(s.Reqs, q)
@@ -421,6 +428,10 @@ func (r *run) result(o *Outcome, kind, user, key string, stage int, next func() 
 		return nil, &ssh.PartialSuccessError{Next: next()}
 	case "banner":
 		return nil, &ssh.BannerError{Err: errors.New("rejected with banner"), Message: "go away\n"}
+	case "banner-nil":
+		// a rejection whose BannerError carries no inner error (the package's
+		// own TestBannerError uses one): still a rejection
+		return nil, &ssh.BannerError{Message: "go away\n"}
 	}
 	return nil, errors.New("rejected")
 }
@@ -626,6 +637,9 @@ func runHarness(c *core.Ctx, scn any) {
 }
 
 func userOf(q Req) string {
+	if q.Empty {
+		return ""
+	}
 	if q.Bob {
 		return "bob"
 	}
